@@ -309,12 +309,15 @@ def lib_cases(thorough, rng):
                 return A.dfa(name='lim', context='w', initial=mk(), limit=k, terminal=True)
             out.append(('limit%d(%s)' % (k, name), mkw, data, ('limit', k), None))
         # the bare machine on its input with one length/count/size byte altered, and on prefixes of it
-        for j in range(min(len(data), 12)):
-            for delta in (1, 255, 2):
+        for j in range(len(data) if thorough else min(len(data), 12)):
+            for delta in ((1, 2, 3, 127, 128, 255) if thorough else (1, 255, 2)):
                 mut = bytearray(data); mut[j] = (mut[j] + delta) & 0xFF
                 out.append(('%s~byte%d' % (name, j), (lambda mk=mk: A.dfa(name='bare', context='w', initial=mk(), terminal=True)), bytes(mut), None, None))
-        for cut in range(0, len(data), 2):
+        for cut in range(0, len(data), 1 if thorough else 2):
             out.append(('%s[:%d]' % (name, cut), (lambda mk=mk: A.dfa(name='bare', context='w', initial=mk(), terminal=True)), data[:cut], None, None))
+        for _ in range(150 if thorough else 6):
+            rnd = bytes(rng.choice([0, 1, 2, 3, 4, 0x20, 0x24, 0x28, 0x91, 0xB2, 0xFF, rng.getrandbits(8)]) for _ in range(rng.randrange(0, 24)))
+            out.append(('%s~random' % name, (lambda mk=mk: A.dfa(name='bare', context='w', initial=mk(), terminal=True)), rnd, None, None))
     return out
 
 
